@@ -181,6 +181,8 @@ def run_conf_case(case):
 
 
 def run(ctx):
+    ctx.liveness("BrewDecide", unfair_control=not ctx.quick)      # termination under weak fairness (BrewDecide_live.cfg)
+    ctx.liveness("BrewModes", unfair_control=not ctx.quick)      # termination under weak fairness (BrewModes_live.cfg)
     rng = np.random.default_rng(ctx.seed)
     ctx.phase("model_checking")
     ctx.model_check("BrewDecide", "BrewDecide_quick.cfg" if ctx.quick else "BrewDecide_thorough.cfg",
@@ -263,6 +265,9 @@ def run(ctx):
             bad.append(b)
     ctx.negative_controls("DecideTrace", "Trace.cfg", bad, name="the return depends on what the path held before")
     ctx.assume("feat_total is what the returned fold models report (Model.feat_pass at train_fdr = test_fdr)")
+    # the property as observed at the command line: how the user's options reach the stages (CliFlow.tla, drivers/cliflow.py)
+    from drivers import cliflow
+    cliflow.family(ctx, "C07", model_check=False, light=True)
     return ctx.finish(
         rule="brew: random 60-150 row datasets x estimators {feat, const (cannot learn), anti} x label encodings {1/-1, 1/0, bool} x "
              "best feature {higher, lower}-is-better x {text, Parquet} x override x folds 2..4 (a second collection every 8th; every 5th also "
@@ -272,6 +277,9 @@ def run(ctx):
 
 
 def replay(ctx, case):
+    if isinstance(case.get("case"), dict) and case["case"].get("kind") == "cliflow":
+        from drivers import cliflow
+        return cliflow.replay(ctx, case, "C07")
     c = case["case"]["case"]
     if "files" in c:
         t = run_brew_case(c)
